@@ -53,6 +53,13 @@ type session struct {
 	manifestFd     storage.FileDesc
 	manifestErr    bool // last write to the manifest failed; need external synchronization
 
+	// Tables of discarded transactions whose failed commit record may sit in
+	// the current manifest: they can be removed once a new manifest has been
+	// written from a version that does not hold them.
+	orphanMu     sync.Mutex
+	manifestGen  int // number of manifests started by commit
+	orphanTables []storage.FileDesc
+
 	stCompPtrs  []internalKey // compaction pointers; need external synchronization
 	stVersion   *version      // current version
 	ntVersionID int64         // next version id to assign
@@ -235,10 +242,13 @@ func (s *session) commit(r *sessionRecord, trivial bool) (err error) {
 		}
 	}()
 
+	newManifest := false
 	if s.manifest == nil {
 		// manifest journal writer not yet created, create one
 		err = s.newManifest(r, nv)
+		newManifest = true
 	} else if s.manifest.Size() >= s.o.GetMaxManifestFileSize() || s.manifestErr {
+		newManifest = true
 		// The manifest is full, or a write to it failed: a journal writer
 		// stays in error state once a write failed, so start a new manifest.
 		// pass a sessionRecord without tables to avoid over-reference table
@@ -262,7 +272,45 @@ func (s *session) commit(r *sessionRecord, trivial bool) (err error) {
 	// finally, apply new version if no error rise
 	if err == nil {
 		s.setVersion(r, nv)
+		if newManifest {
+			s.dropOrphanTables()
+		}
 	}
 
 	return
+}
+
+// The old manifest is gone, and with it whatever a failed commit may have
+// left in it: the tables kept for that case are garbage now.
+func (s *session) dropOrphanTables() {
+	s.orphanMu.Lock()
+	s.manifestGen++
+	orphans := s.orphanTables
+	s.orphanTables = nil
+	s.orphanMu.Unlock()
+	for _, fd := range orphans {
+		s.logf("manifest@new removing orphan table @%d", fd.Num)
+		s.tops.remove(fd)
+	}
+}
+
+func (s *session) getManifestGen() int {
+	s.orphanMu.Lock()
+	defer s.orphanMu.Unlock()
+	return s.manifestGen
+}
+
+// keepOrphanTables takes over the tables of a transaction whose commit failed
+// while manifest generation gen was current. It reports false if a new
+// manifest has been started since, in which case the caller removes them.
+func (s *session) keepOrphanTables(gen int, tables tFiles) bool {
+	s.orphanMu.Lock()
+	defer s.orphanMu.Unlock()
+	if s.manifestGen != gen {
+		return false
+	}
+	for _, t := range tables {
+		s.orphanTables = append(s.orphanTables, t.fd)
+	}
+	return true
 }
